@@ -33,6 +33,14 @@ func customC15(r *Run) ([]Crash, error) {
 	}
 	var srcs []shapes.Src
 	forests := shapes.Enumerate(maxNodes, 3, true)
+	if !r.Thorough() {
+		// plus a fixed spread of five-node shapes (several sibling groups followed by further
+		// children only exist from five nodes on)
+		five := shapes.Enumerate(5, 3, true)[len(forests):]
+		for _, i := range spread(len(five), 80) {
+			forests = append(forests, five[i])
+		}
+	}
 	if r.Thorough() {
 		// plus a fixed sample of six-node shapes
 		six := shapes.Enumerate(6, 3, true)[len(forests):]
